@@ -6,6 +6,8 @@
 // rate-limited and the far leg plain, TLS or wrapped (modes in env.go), so that some configurations
 // have no io.ReaderFrom/io.WriterTo fast path on either leg; in over a third of the tunnels of every
 // configuration both endpoints stream 1-4 MiB of different pseudo-random data at the same time.
+// grace.go adds the grace period of bicopy on the clock (period set through the hook
+// martian.VerifSetBicopyGracefulTimeout), judged directly and by the timed machine of Model/C03.lean.
 package c03
 
 import (
@@ -254,10 +256,18 @@ func Run(ctx *core.Ctx) {
 		"proxy's 2xx reply being HTTP/1.1 plain, HTTP/1.0, or (two cases in five) carrying Content-Length: 5 / Content-Length: 300000 / " +
 		"Transfer-Encoding: chunked / both, which a reply to CONNECT has to be read without (RFC 9110 9.3.6; the shape of the repaired F29), half-close order " +
 		"client-first / target-first / simultaneous with more data sent after the peer's end-of-stream was seen; a tunnel is non-trivial " +
-		"when it carries early data, a coalesced reply, a sequenced half-close or payload in both directions; distinct = distinct case objects")
+		"when it carries early data, a coalesced reply, a sequenced half-close or payload in both directions; distinct = distinct case objects. " +
+		"A second group (histogram labels grace/…, grace-tunnel/…, grace-mode/…) exercises the grace period of bicopy on the clock, with the period set " +
+		"to 0.3-1.8 s through the hook martian.VerifSetBicopyGracefulTimeout, in every configuration: tunnels one direction of which finishes " +
+		"(client first / target first) while the other keeps writing every 50 ms or goes quiet, in sequence and in parallel with staggered starts " +
+		"(cut not before their own first finish + period, and soon after), tunnels both directions of which finish within the period followed by a " +
+		"tunnel on a new connection that outlives the old deadline, tunnels that live for several periods with both directions trickling; each judged " +
+		"directly (sharp lower, generous upper bounds, confirmed by repetition) and by the timed machine (`trun`) on the observed history")
 	ctx.Assume("the kernel's loopback TCP delivers what is written in order and signals FIN as end-of-stream (the endpoints observe through it)")
+	ctx.Assume("Go's runtime timers do not fire early and time.Now is monotonic within the process (the sharp lower bound of the grace period rests on it)")
 	ctx.Assume("socket closure is observed through forwarder's own connection tracking (conntrack OnClose → listener_cx_active / dialer_cx_active) " +
 		"and, for the custom ConnectFunc, a Close hook on the connection it returns")
+	installGraceLog() // before the first proxy is started
 	pool := &envPool{envs: map[string]*env{}, ctx: ctx}
 	defer pool.closeAll()
 	for _, c := range core.LoadCorpus(ctx.Root, "C03") {
@@ -314,6 +324,10 @@ func Run(ctx *core.Ctx) {
 	close(jobs)
 	wg.Wait()
 	ctx.Extra("payload_bytes_delivered", bytesMoved.Load())
+	// the grace period on the clock: a phase of its own (the period is a process-wide variable of the proxy)
+	if ctx.NumFindings() < 4 && os.Getenv("VERIF_C03_NO_GRACE") == "" {
+		runGracePhase(ctx, pool, modes)
+	}
 	// at the end every environment must be back to zero sockets, and the observation channel itself
 	// must have been alive
 	pool.mu.Lock()
@@ -329,6 +343,13 @@ func Run(ctx *core.Ctx) {
 }
 
 func replayWith(ctx *core.Ctx, pool *envPool, raw json.RawMessage) {
+	var kind struct {
+		Kind string `json:"kind"`
+	}
+	if json.Unmarshal(raw, &kind) == nil && kind.Kind == "grace" {
+		replayGrace(ctx, pool, raw)
+		return
+	}
 	var tc tunnelCase
 	if err := json.Unmarshal(raw, &tc); err != nil || tc.Mode == "" {
 		core.Fatalf("C03: unreadable case: %v %s", err, raw)
@@ -350,6 +371,7 @@ var replaying bool
 
 func Replay(ctx *core.Ctx, raw json.RawMessage) {
 	replaying = true
+	installGraceLog()
 	pool := &envPool{envs: map[string]*env{}, ctx: ctx}
 	defer pool.closeAll()
 	replayWith(ctx, pool, raw)
